@@ -1,11 +1,15 @@
 """C02 — emitted packets conform to RFC 4253 and survive any segmentation.  Sidecar contracts.
 
-* send_packet: binary packet layout, padding, MAC over the pre-increment sequence number (spec: RFC 4253 6)
+* send_packet: binary packet layout, padding (spec: RFC 4253 6); the sequence number handed to encrypt_packet is the
+  live value of _send_seq at emission, and _send_seq' == (that + 1) mod 2^32 - or 0 at NEWKEYS under strict kex,
+  including the FIRST (still unencrypted) NEWKEYS: the send half of the Terrapin counter-measure
+* encrypt_packet of the four Encryption classes: MAC / AEAD input per RFC 4253 6.4, OpenSSH etm, RFC 5647, chacha20-poly1305
 * Kex.compute_key: the RFC 4253 7.2 key expansion (inductive spec predicate `chain`)
 * send_newkeys: letters A-F / direction table, session id written once
 * GCMCipher._update_iv: RFC 5647 7.1 (only the 64-bit invocation counter moves, mod 2^64)
-* receive framing: _recv_pkthdr / _recv_packet consume nothing unless the whole unit is buffered, and then
-  exactly that unit (chunk independence of data_received)
+* receive framing: _recv_version / _recv_pkthdr / _recv_packet consume nothing unless the whole unit is buffered, and
+  then exactly that unit, reading nothing behind it; _recv_data drains every ready unit in order; data_received
+  appends; lemma: drain(s, a ++ b) == drain(drain(s, a), b)  =>  any segmentation gives the same payload sequence
 """
 import z3
 from pyvc.contracts import *
@@ -20,6 +24,22 @@ ASSUMPTIONS = list(c11.ASSUMPTIONS) + [
     'arguments, with len(H(.)) == digest_size > 0',
     'zlib stream framing is not verified',
     'cipher block sizes are {1, 8, 16} (read from the registered cipher table) so the send block size is 8 or 16',
+    'receive framing: the peer-chosen packet_length is assumed sane (need >= _recv_macsize, i.e. packet_length >= '
+    'blocksize - 4): a shorter hostile length is a robustness question, deliberately not part of this property',
+    'segmentation: the indirect call self._recv_handler() in _recv_data is modelled by the ABSTRACT step contract '
+    '(i) not ready -> False and no change, (ii) ready -> consumes exactly need >= 1 bytes, successor state and payload '
+    'are functions of (state, those bytes), bytes behind them are irrelevant.  _recv_version / _recv_pkthdr / '
+    '_recv_packet are proved to satisfy the clauses named in the comment above `RecvState`; that these clauses make each '
+    'handler an instance of (i)/(ii) is a refinement argument on paper (decrypt_header / decrypt_packet / decompress / '
+    'the message handlers are deterministic functions of their arguments and the receive state), not a mechanised '
+    'step.  need >= 1 holds for every packet a conforming sender emits (4 + packet_length is a multiple of max(8, '
+    'block size) and >= 16, or a MAC / tag follows); a step that closes the connection ends the claim (C10 / C01: '
+    'nothing is delivered afterwards)',
+    'drain(s, x) is the unique function defined by well-founded recursion on |x| (need >= 1); only definitional '
+    'instances of it are assumed; the induction principle over the number of steps is the trusted step of the '
+    'segmentation lemma (base and step case are solver-checked in extra_checks)',
+    'Encryption.encrypt_packet in send_packet is the abstract (bytes, bytes) contract; the four implementations are '
+    'under contract here; MAC.sign / Cipher.encrypt inside them are uninterpreted (mac.py is under contract in C01)',
 ]
 
 # ------------------------------------------------------------------ send_packet: wire format
@@ -88,6 +108,7 @@ send_packet = c11._mk_send_packet(
 send_packet.stubs['self.send_packet'] = c11._recursive_stub
 send_packet.stubs['self._send_encryption.encrypt_packet'] = encrypt_packet_stub
 send_packet.stubs['self._send'] = wire_stub
+send_packet.model_timeout_ms = 2500     # per-path cross-check witness search budget (sampling only, not a proof step)
 
 
 # ------------------------------------------------------------------ encryption.py: encrypt_packet (sending side)
@@ -267,11 +288,8 @@ compute_key = Spec(
                        lemmas=ck_lemmas)},
     local_types={'hash_obj': 'obj:Hash'},
     requires=lambda c: z3.And(c.old('ghost_digest_size') >= 1, c.arg('keylen') >= 0),
-    ensures=[('rfc4253-7.2-expansion-truncated', lambda c: (lambda key: z3.And(
-        z3.Length(c.result) == c.arg('keylen')))(None)),
-        ('result-is-prefix-of-an-rfc-chain', lambda c: z3.BoolVal(True))],
     returns='bytes')
-# the real postcondition needs the final `key`; it is a local, so it is stated through the loop-exit state:
+# the postcondition needs the final `key`; it is a local, so it is stated through the loop-exit state:
 compute_key.ensures = [
     ('rfc4253-7.2-expansion-truncated',
      lambda c: z3.And(chain(*ck_args(c), c.local('key')),
@@ -820,6 +838,13 @@ send_newkeys = Spec(
              ('kex-complete-after-newkeys', lambda c: z3.Or(
                  c.new('_kex_complete'),
                  # the early return for a connect() waiting only for the key exchange
-                 z3.BoolVal(len(c.events('waiter_set')) == 1)))],
+                 z3.BoolVal(len(c.events('waiter_set')) == 1))),
+             # "every payload sent is received": what send_packet queued during the exchange goes out once the new
+             # keys are in place - exactly one flush, after NEWKEYS and after _kex_complete is raised
+             ('deferred-packets-flushed-once-the-exchange-is-complete', lambda c: z3.Implies(
+                 z3.BoolVal(len(c.events('waiter_set')) == 0), z3.BoolVal(
+                     len(c.events('flush_deferred')) == 1 and
+                     [e[0] for e in c.events() if e[0] in ('send_packet', 'flush_deferred')][-1] == 'flush_deferred')))],
     always=[('newkeys-first', newkeys_order)],
     raises={'UnicodeDecodeError': True, 'AssertionError': lambda c: z3.BoolVal(False)})
+send_newkeys.model_timeout_ms = 2500    # per-path cross-check witness search budget (sampling only, not a proof step)
